@@ -159,6 +159,33 @@ fn registry() -> ExternalActionAdapterRegistryV1 {
     ExternalActionAdapterRegistryV1::new([ExternalActionAdapterBindingV1 { adapter_id: adapter(0), operation_id: operation(), authority_scope_digest: digest("c17:scope") }])
 }
 const BUDGET: u64 = 24;
+const CEILING: u64 = warp_core::external_action::MAX_EXTERNAL_ACTION_SETTLEMENT_BYTES_V1;
+/// Settlement budget of request `i`: most are small; three sit at the documented boundaries
+/// (one byte, one below the v1 ceiling, the ceiling itself).
+fn budget_of(i: u8) -> u64 {
+    match i % 6 {
+        5 => CEILING,
+        4 => CEILING - 1,
+        3 => 1,
+        _ => BUDGET,
+    }
+}
+/// Result length drawn as `len`: small values are literal (capped by the budget), the top six
+/// values count down from the budget (255 = exactly the budget).
+fn result_len(i: u8, len: u8) -> usize {
+    let b = budget_of(i);
+    if len >= 250 {
+        b.saturating_sub((255 - len) as u64) as usize
+    } else {
+        (len as u64).min(b) as usize
+    }
+}
+fn result_bytes(n: usize, kind: u8) -> Vec<u8> {
+    (0..n).map(|b| (b as u8).wrapping_mul(31).wrapping_add(kind)).collect()
+}
+fn len_strategy() -> impl Strategy<Value = u8> {
+    prop_oneof![5 => 0u8..=BUDGET as u8, 2 => 250u8..=255]
+}
 fn request(i: u8) -> ExternalActionRequestV1 {
     ExternalActionRequestV1::new(
         WorldlineId::from_bytes([1 + i % 2; 32]),
@@ -167,7 +194,7 @@ fn request(i: u8) -> ExternalActionRequestV1 {
         digest("c17.settlement"),
         digest("c17:scope"),
         digest(&format!("c17:basis:{i}")),
-        ExternalActionBudgetV1 { max_settlement_bytes: BUDGET, max_attempts: 1 },
+        ExternalActionBudgetV1 { max_settlement_bytes: budget_of(i), max_attempts: 1 },
         digest(&format!("c17:input:{i}")),
         digest("c17.reconcile"),
     )
@@ -244,11 +271,11 @@ fn op() -> impl Strategy<Value = Op> {
     prop_oneof![
         6 => (i.clone(), reqv).prop_map(|(i, v)| Op::Request { i, v }),
         6 => (i.clone(), claimv).prop_map(|(i, v)| Op::Claim { i, v }),
-        6 => (i.clone(), settlev, 0u8..4, 0u8..=BUDGET as u8).prop_map(|(i, v, kind, len)| Op::Settle { i, v, kind, len }),
+        6 => (i.clone(), settlev, 0u8..4, len_strategy()).prop_map(|(i, v, kind, len)| Op::Settle { i, v, kind, len }),
         3 => (i.clone(), any::<bool>()).prop_map(|(i, same)| Op::RetrySettle { i, same }),
         2 => i.clone().prop_map(|i| Op::Observe { i }),
         2 => i.clone().prop_map(|i| Op::ClaimWithStaleToken { i }),
-        2 => (0u8..6, 0u8..4, 0u8..=BUDGET as u8).prop_map(|(i, kind, len)| Op::SettleWithStaleGrant { i, kind, len }),
+        2 => (0u8..6, 0u8..4, len_strategy()).prop_map(|(i, kind, len)| Op::SettleWithStaleGrant { i, kind, len }),
         2 => Just(Op::CrashRecover),
         3 => fault.prop_map(Op::Arm),
     ]
@@ -404,7 +431,7 @@ fn check17(_ctx: &Ctx, c: &Case17, probe: &mut Probe) -> Check {
                         let budget = match other {
                             ReqV::ZeroBudget => ExternalActionBudgetV1 { max_settlement_bytes: 0, max_attempts: 1 },
                             ReqV::TwoAttempts => ExternalActionBudgetV1 { max_settlement_bytes: 8, max_attempts: 2 },
-                            _ => ExternalActionBudgetV1 { max_settlement_bytes: u64::MAX, max_attempts: 1 },
+                            _ => ExternalActionBudgetV1 { max_settlement_bytes: if *i % 2 == 0 { CEILING + 1 } else { u64::MAX }, max_attempts: 1 },
                         };
                         ExternalActionRequestV1::new(WorldlineId::from_bytes([1; 32]), operation(), digest("a"), digest("b"), digest("c17:scope"), digest("c"), budget, digest("d"), digest("e"))
                     }
@@ -516,8 +543,11 @@ fn check17(_ctx: &Ctx, c: &Case17, probe: &mut Probe) -> Check {
                             s.stale_grants.insert(*i, spare);
                         }
                         let claim = g.claim();
-                        let n = if matches!(v, SettleV::OverBudget) { BUDGET as usize + 1 + *len as usize } else { *len as usize };
-                        let bytes: Vec<u8> = (0..n).map(|b| (b as u8).wrapping_mul(31).wrapping_add(*kind)).collect();
+                        let n = if matches!(v, SettleV::OverBudget) { budget_of(*i) as usize + 1 + (*len % 3) as usize } else { result_len(*i, *len) };
+                        let bytes = result_bytes(n, *kind);
+                        if n as u64 == budget_of(*i) {
+                            probe.class(if n as u64 == CEILING { "settle-result-exactly-at-v1-ceiling" } else { "settle-result-exactly-fills-budget" });
+                        }
                         let mut cand = ExternalActionSettlementCandidateV1::new(id, claim.attempt_id, claim.adapter_id, kind_of(*kind), req.settlement_schema_digest, req.basis_digest, bytes.clone(), digest("c17:schema-admission"), digest("c17:external-evidence"));
                         match v {
                             SettleV::WrongSchema => cand.settlement_schema_digest = digest("c17:other-schema"),
@@ -544,7 +574,7 @@ fn check17(_ctx: &Ctx, c: &Case17, probe: &mut Probe) -> Check {
                         transition = Some((cls.clone(), r.is_ok()));
                         if let Ok(a) = &r {
                             vensure!(s.store.flushed.last() == Some(&a.settlement_commit_digest()), "C17/durability/settlement-returned-before-its-commit-was-flushed", "{what}");
-                            vensure!(a.settlement().canonical_result_bytes == bytes && a.settlement().attempt_id == claim.attempt_id && a.settlement().canonical_result_bytes.len() as u64 <= BUDGET, "C17/settle/admitted-outside-claim-or-bounds", "{what}");
+                            vensure!(a.settlement().canonical_result_bytes == bytes && a.settlement().attempt_id == claim.attempt_id && a.settlement().canonical_result_bytes.len() as u64 <= budget_of(*i), "C17/settle/admitted-outside-claim-or-bounds", "{what}");
                         }
                         if expect == "Ok" {
                             if r.is_ok() {
@@ -591,7 +621,7 @@ fn check17(_ctx: &Ctx, c: &Case17, probe: &mut Probe) -> Check {
                 if let Some(g) = s.stale_grants.remove(i) {
                     let req = request(*i);
                     let claim = g.claim();
-                    let bytes: Vec<u8> = (0..*len as usize).map(|b| (b as u8).wrapping_mul(31).wrapping_add(*kind)).collect();
+                    let bytes = result_bytes(result_len(*i, *len), *kind);
                     let cand = ExternalActionSettlementCandidateV1::new(req.request_id(), claim.attempt_id, claim.adapter_id, kind_of(*kind), req.settlement_schema_digest, req.basis_digest, bytes.clone(), digest("c17:schema-admission"), digest("c17:external-evidence"));
                     let ctx = s.next_ctx();
                     let stage = s.model.get(i).cloned();
@@ -623,8 +653,8 @@ fn check17(_ctx: &Ctx, c: &Case17, probe: &mut Probe) -> Check {
                 let claim = s.co.observed_index().get(id).and_then(|e| e.claim);
                 let (kind, bytes) = match (&stage, same) {
                     (Some(Stage::Settled(k, b)), true) => (*k, b.clone()),
-                    (Some(Stage::Settled(k, b)), false) => (*k + 1, b.iter().map(|x| x ^ 1).chain([9u8]).take(BUDGET as usize).collect()),
-                    _ => (0, vec![1, 2, 3]),
+                    (Some(Stage::Settled(k, b)), false) => (*k + 1, b.iter().map(|x| x ^ 1).chain([9u8]).take(budget_of(*i) as usize).collect()),
+                    _ => (0, result_bytes(3.min(budget_of(*i) as usize), 1)),
                 };
                 let (attempt, adapter_id) = claim.map(|c| (c.attempt_id, c.adapter_id)).unwrap_or((warp_core::external_action::ExternalActionAttemptIdV1::from_hash(digest("c17:none")), adapter(0)));
                 let cand = ExternalActionSettlementCandidateV1::new(id, attempt, adapter_id, kind_of(kind), req.settlement_schema_digest, req.basis_digest, bytes, digest("c17:schema-admission"), digest("c17:external-evidence"));
@@ -666,7 +696,7 @@ fn check17(_ctx: &Ctx, c: &Case17, probe: &mut Probe) -> Check {
                             s.model.insert(*i, Stage::Claimed);
                         }
                         Op::Settle { i, kind, len, .. } | Op::SettleWithStaleGrant { i, kind, len } => {
-                            let bytes: Vec<u8> = (0..*len as usize).map(|b| (b as u8).wrapping_mul(31).wrapping_add(*kind)).collect();
+                            let bytes = result_bytes(result_len(*i, *len), *kind);
                             s.model.insert(*i, Stage::Settled(*kind, bytes));
                         }
                         _ => {}
